@@ -804,7 +804,15 @@ PROP_FRAMES = {
     'C19': [('photutils/profiles/core.py', 'ProfileBase.__init__'),
             ('photutils/profiles/radial_profile.py', 'RadialProfile.__init__'),
             ('photutils/profiles/curve_of_growth.py', 'CurveOfGrowth.__init__')],
-    'C20': [('photutils/isophote/ellipse.py', 'Ellipse.fit_image')],
+    # C20 "fitting leaves the image untouched": the constructor and both fitting entry points
+    'C20': [('photutils/isophote/ellipse.py', 'Ellipse.fit_image'),
+            ('photutils/isophote/ellipse.py', 'Ellipse.__init__', 'P:image'),
+            ('photutils/isophote/ellipse.py', 'Ellipse.fit_isophote')],
+    # C15 "MaskedArrays with an empty mask": the Gaussian centroids work on a masked copy; writing
+    # through to the caller's mask makes the result depend on earlier calls with that container
+    'C15': [('photutils/centroids/gaussian.py', 'centroid_1dg'),
+            ('photutils/centroids/gaussian.py', 'centroid_2dg'),
+            ('photutils/centroids/core.py', 'centroid_sources')],
     # C09 "calling the same ... Ellipse object repeatedly with different inputs": a call must not
     # leave anything behind in the object's (or the caller's) geometry
     'C09': [('photutils/isophote/ellipse.py', 'Ellipse.fit_image'),
@@ -827,16 +835,30 @@ def run(prop, tier):
     if prop == 'C10':
         obs += frame_obligations(world, 'C10')
     elif prop in PROP_FRAMES:
-        want = {f'{rel}::{q}' for rel, q in PROP_FRAMES[prop]}
+        # entries are (file, function) or (file, function, origin prefix): with a prefix only the
+        # writes reaching that argument / field belong to this property
+        only = {f'{e[0]}::{e[1]}': e[2] for e in PROP_FRAMES[prop] if len(e) > 2}
+        want = {f'{e[0]}::{e[1]}' for e in PROP_FRAMES[prop]}
         allf = frame_obligations(world, prop)
         got = set()
+        kept_any = {}
         for o in allf:
             t = o.oid[len('effects:'):].split('/frame')[0]
             # inherited methods are reported under the public subclass: match by method name too
             if t in want or any(t.endswith('.' + w.split('.')[-1]) and
                                 w.split('::')[0] == t.split('::')[0] for w in want):
+                pre = only.get(t)
+                if pre and '/frame:' in o.oid and not o.oid.split('/frame:', 1)[1].startswith(pre):
+                    kept_any.setdefault(t, False)
+                    continue
+                kept_any[t] = True
                 obs.append(o)
                 got.add(t)
+        for t, kept in kept_any.items():
+            if not kept:          # every write of this function concerns other objects
+                obs.append(Obligation(f'effects:{t}/frame:{only[t]}', prop, 'effects', DISCHARGED,
+                                      backend='effects', functions=[t],
+                                      text=f'{t}: no in-place write reaches {only[t]}'))
     if prop == 'C08':
         obs += ownership_obligations(world, 'C08')
     obs += loop_obligations(world, prop)
